@@ -317,7 +317,7 @@ Theorem commit_ok : forall c used avail usedG F g,
     /\ st g1 PTR = Linked (c_ptr c) true /\ st g' PTR = Linked (c_ptr c) true
     /\ incl usedG' (names_of_commit c ++ used)
     /\ incl (map pf_path (files_of_commit c) ++ avail) (map pf_path F')
-    /\ incl F F' /\ incl (files_of_commit c) F'.
+    /\ incl F F' /\ incl (files_of_commit c) F' /\ incl F' (files_of_commit c ++ F).
 Proof.
   intros c used avail usedG F g Hwf HG Hiu Hia.
   unfold wf_commit in Hwf.
@@ -382,7 +382,231 @@ Proof.
     + simpl. right. rewrite map_app. apply in_or_app. right. auto. }
   split.
   { intros x Hx. right. apply in_or_app. now right. }
-  unfold files_of_commit. fold its. intros x Hx. apply in_app_or in Hx as [Hx|[<-|[]]].
-  + right. apply in_or_app. left. now apply in_rev in Hx.
-  + now left.
+  split.
+  { unfold files_of_commit. fold its. intros x Hx. apply in_app_or in Hx as [Hx|[<-|[]]].
+    + right. apply in_or_app. left. now apply in_rev in Hx.
+    + now left. }
+  unfold files_of_commit. fold its. intros x [<-|Hx].
+  + apply in_or_app. left. apply in_or_app. right. now left.
+  + apply in_app_or in Hx as [Hx|Hx].
+    * apply in_or_app. left. apply in_or_app. left. now apply in_rev.
+    * apply in_or_app. now right.
+Qed.
+
+(* ---------------------------------------------------------------- a whole history *)
+Fixpoint used_after (used : list path) (ops : list commit) : list path :=
+  match ops with [] => used | c :: ops' => used_after (names_of_commit c ++ used) ops' end.
+Fixpoint avail_after (avail : list path) (ops : list commit) : list path :=
+  match ops with [] => avail | c :: ops' => avail_after (map pf_path (files_of_commit c) ++ avail) ops' end.
+
+Lemma wf_from_app : forall l1 l2 used avail, wf_from used avail (l1 ++ l2) =
+  wf_from used avail l1 && wf_from (used_after used l1) (avail_after avail l1) l2.
+Proof.
+  induction l1 as [|c l1 IH]; intros l2 used avail; simpl; [reflexivity|].
+  rewrite IH. now rewrite andb_assoc.
+Qed.
+
+Theorem history_ok : forall ops used avail usedG F g,
+  wf_from used avail ops = true -> G usedG F [] g -> incl usedG used -> incl avail (map pf_path F) ->
+  exists g' usedG' F',
+    checks g (trace_of ops) = Some g' /\ G usedG' F' [] g'
+    /\ incl usedG' (used_after used ops) /\ incl (avail_after avail ops) (map pf_path F')
+    /\ incl (files_of ops ++ F) F' /\ incl F' (files_of ops ++ F)
+    /\ (ops <> [] -> exists c, last ops c = c /\ st g' PTR = Linked (c_ptr (last ops c)) true)
+    /\ (ops = [] -> st g' PTR = st g PTR).
+Proof.
+  induction ops as [|c ops IH]; intros used avail usedG F g Hwf HG Hiu Hia.
+  - exists g, usedG, F. simpl. repeat (split; auto); try apply incl_refl. congruence.
+  - simpl in Hwf. apply andb_prop in Hwf as [W1 W2].
+    destruct (commit_ok c used avail usedG F g W1 HG Hiu Hia)
+      as [g1 [g2 [u2 [F2 [M1 [C1 [C2 [G1 [G2 [S1 [S2 [I1 [I2 [I3 [I4 I5]]]]]]]]]]]]]]].
+    destruct (IH _ _ u2 F2 g2 W2 G2 I1 I2) as [g3 [u3 [F3 [C3 [G3 [J1 [J2 [J3 [J4 [J5 J6]]]]]]]]]].
+    exists g3, u3, F3. split.
+    { cbn [trace_of flat_map]. unfold trace_of_commit. rewrite !checks_app, C1, C2. exact C3. }
+    split; [exact G3|]. split; [exact J1|]. split; [exact J2|]. split.
+    { cbn [files_of flat_map]. intros x Hx. apply J3. apply in_app_or in Hx as [Hx|Hx].
+      - apply in_app_or in Hx as [Hx|Hx]; apply in_or_app; [right; apply I4; auto|left; auto].
+      - apply in_or_app. right. apply I3. auto. }
+    split.
+    { cbn [files_of flat_map]. intros x Hx. apply J4 in Hx. apply in_app_or in Hx as [Hx|Hx].
+      - apply in_or_app. left. apply in_or_app. now right.
+      - apply I5 in Hx. apply in_app_or in Hx as [Hx|Hx]; apply in_or_app; [left; apply in_or_app; now left|now right]. }
+    split; [|discriminate].
+    intros _. destruct ops as [|c' ops'].
+    + exists c. split; [reflexivity|]. simpl. rewrite (J6 eq_refl). exact S2.
+    + destruct (J5 ltac:(discriminate)) as [c0 [E0 E1]]. exists c0. split; [exact E0|].
+      change (last (c :: c' :: ops') c0) with (last (c' :: ops') c0). exact E1.
+Qed.
+
+(* ---------------------------------------------------------------- the ghost only grows *)
+Lemma check_mono : forall g c g', check g c = Some g' ->
+  (forall k, refd g k = true -> refd g' k = true)
+  /\ (forall k c0 b, st g k = Linked c0 b -> k <> PTR -> (exists b', st g' k = Linked c0 b') \/ st g' k = Dead).
+Proof.
+  intros g c g' H. destruct c as [p|p w|p|p q|dd|p|dd]; simpl in H.
+  - destruct p; [discriminate|]. destruct (tmps g (T d n)); [discriminate|]. inversion H; subst. simpl. eauto.
+  - destruct p; [discriminate|]. destruct (tmps g (T d n)) as [[? ?]|]; [|discriminate]. inversion H; subst. simpl. eauto.
+  - destruct p; [discriminate|]. destruct (tmps g (T d n)) as [[? ?]|]; [|discriminate]. inversion H; subst. simpl. eauto.
+  - destruct p; [discriminate|]. destruct q as [d' n'|]; [|discriminate].
+    destruct (tmps g (T d n)) as [[c1 [|]]|]; try discriminate.
+    destruct (forallb (ref_ok g) (refs c1) && _) eqn:E; [|discriminate]. inversion H; subst. simpl. split.
+    + intros k Hk. now rewrite Hk.
+    + intros k c0 b Hk Hp. unfold upd_s. destruct (path_eqb_spec k (P d' n')) as [->|]; [|eauto].
+      apply andb_prop in E as [_ E]. rewrite Hk in E. apply andb_prop in E as [E1 E2]. apply N.eqb_eq in E1, E2. subst. elim Hp. reflexivity.
+  - inversion H; subst. simpl. split; auto. intros k c0 b Hk Hp. rewrite Hk. destruct (dir_of k =? dd); eauto.
+  - destruct p as [d n|d n].
+    + match type of H with (if ?x then _ else _) = _ => destruct x; [|discriminate] end. inversion H; subst. simpl.
+      split; auto. intros k c0 b Hk Hp. unfold upd_s. destruct (path_eqb k (P d n)); eauto.
+    + destruct (tmps g (T d n)); [|discriminate]. inversion H; subst. simpl. eauto.
+  - inversion H; subst. eauto.
+Qed.
+
+Lemma checks_mono : forall tr g g', checks g tr = Some g' ->
+  (forall k, refd g k = true -> refd g' k = true)
+  /\ (forall k c0 b, st g k = Linked c0 b -> k <> PTR -> (exists b', st g' k = Linked c0 b') \/ st g' k = Dead).
+Proof.
+  induction tr as [|c tr IH]; intros g g' H; simpl in H.
+  - inversion H; subst. eauto.
+  - destruct (check g c) as [g1|] eqn:E; [|discriminate].
+    destruct (check_mono _ _ _ E) as [A1 A2]. destruct (IH _ _ H) as [B1 B2]. split; auto.
+    intros k c0 b Hk Hp. destruct (A2 k c0 b Hk Hp) as [[b' Hb]|Hd]; eauto.
+    (* Dead stays Dead *)
+    right. clear - Hd H. revert g1 Hd H. induction tr as [|c' tr IH]; intros g1 Hd H; simpl in H.
+    + inversion H; subst; auto.
+    + destruct (check g1 c') as [g2|] eqn:E; [|discriminate]. eapply IH; [|exact H].
+      destruct c' as [p|p w|p|p q|dd|p|dd]; simpl in E.
+      * destruct p; [discriminate|]. destruct (tmps g1 (T d n)); [discriminate|]. inversion E; subst. auto.
+      * destruct p; [discriminate|]. destruct (tmps g1 (T d n)) as [[? ?]|]; [|discriminate]. inversion E; subst. auto.
+      * destruct p; [discriminate|]. destruct (tmps g1 (T d n)) as [[? ?]|]; [|discriminate]. inversion E; subst. auto.
+      * destruct p; [discriminate|]. destruct q as [d' n'|]; [|discriminate].
+        destruct (tmps g1 (T d n)) as [[c1 [|]]|]; try discriminate.
+        destruct (forallb (ref_ok g1) (refs c1) && _) eqn:E2; [|discriminate]. inversion E; subst. simpl.
+        unfold upd_s. destruct (path_eqb_spec k (P d' n')) as [->|]; auto.
+        apply andb_prop in E2 as [_ E2]. rewrite Hd in E2. discriminate.
+      * inversion E; subst. simpl. rewrite Hd. destruct (dir_of k =? dd); auto.
+      * destruct p as [d n|d n].
+        -- match type of E with (if ?x then _ else _) = _ => destruct x; [|discriminate] end. inversion E; subst. simpl.
+           unfold upd_s. destruct (path_eqb k (P d n)); auto.
+        -- destruct (tmps g1 (T d n)); [|discriminate]. inversion E; subst. auto.
+      * inversion E; subst. auto.
+Qed.
+
+Lemma lookup_pub_some : forall l k c, lookup_pub k l = Some c -> exists f, In f l /\ pf_path f = k /\ pf_content f = c.
+Proof.
+  induction l as [|f l IH]; simpl; intros k c H; [discriminate|].
+  destruct (path_eqb_spec k (pf_path f)).
+  - inversion H; subst. eauto.
+  - destruct (IH _ _ H) as [f' [A B]]. eauto.
+Qed.
+
+Lemma lookup_pub_in : forall l f, In f l -> exists c, lookup_pub (pf_path f) l = Some c.
+Proof.
+  induction l as [|f0 l IH]; simpl; intros f H; [contradiction|].
+  destruct (path_eqb_spec (pf_path f) (pf_path f0)); [eauto|]. destruct H as [->|H]; [congruence|auto].
+Qed.
+
+(* ---------------------------------------------------------------- the ops-level theorems *)
+Lemma wf_checks : forall ops, wf ops = true ->
+  exists g' used' F', checks g0 (trace_of ops) = Some g' /\ G used' F' [] g'
+    /\ incl (files_of ops) F' /\ incl F' (files_of ops).
+Proof.
+  intros ops H. destruct (history_ok ops [] [] [] [] g0 H G_init (incl_refl _) (incl_refl _))
+    as [g' [u' [F' [C [HG [_ [_ [I1 [I2 _]]]]]]]]].
+  rewrite app_nil_r in I1, I2. eauto 8.
+Qed.
+
+(* what a prefix's ghost knows about a referenced file is what the history intends *)
+Lemma intended_tie : forall ops g1 g' used' F' tr2 k c,
+  G used' F' [] g' -> incl (files_of ops) F' -> incl F' (files_of ops) ->
+  checks g1 tr2 = Some g' -> refd g1 k = true -> st g1 k = Linked c true -> k <> PTR ->
+  intended ops k = Some c.
+Proof.
+  intros ops g1 g' used' F' tr2 k c HG I1 I2 Hc Hr Hs Hp.
+  destruct (checks_mono _ _ _ Hc) as [M1 M2].
+  pose proof (g_refd _ _ _ _ HG k (M1 k Hr)) as Hin. apply in_map_iff in Hin as [f [E Hf]].
+  destruct (lookup_pub_in (files_of ops) f (I2 f Hf)) as [c' Hl]. rewrite E in Hl.
+  unfold intended. rewrite Hl. f_equal.
+  destruct (lookup_pub_some _ _ _ Hl) as [f' [A [B C]]].
+  destruct (g_files _ _ _ _ HG f' (I1 f' A)) as [S _]. rewrite B, C in S.
+  destruct (M2 k c true Hs Hp) as [[b' Hb]|Hd]; congruence.
+Qed.
+
+Theorem durable_prefix : forall ops, wf ops = true ->
+  forall n es, calls_of es = firstn n (trace_of ops) ->
+  exists s', run fs0 es = Some s' /\ safe_state s' /\
+    forall v, pointer (power_loss s') = Some v ->
+    forall k, reachable_from ops v k ->
+      exists c, intended ops k = Some c /\ content_at (power_loss s') k = Some c /\ content_at (vol s') k = Some c.
+Proof.
+  intros ops Hwf n es Hes.
+  destruct (wf_checks ops Hwf) as [g' [u' [F' [Hc [HG [I1 I2]]]]]].
+  rewrite <- (firstn_skipn n (trace_of ops)) in Hc. rewrite checks_app in Hc.
+  destruct (checks g0 (firstn n (trace_of ops))) as [g1|] eqn:H1; [|discriminate].
+  rewrite <- Hes in H1. destruct (Inv_run es g0 fs0 g1 H1 Inv_init) as [s' [Hr I]].
+  exists s'. split; auto. split; [eapply Inv_safe; eauto|].
+  intros v Hv k Hk. unfold pointer, content_at, power_loss in Hv.
+  destruct (dE s' PTR) as [i|] eqn:Hi; [|discriminate].
+  destruct (refs (dD s' i)) as [|v0 [|? ?]] eqn:Hrf; try discriminate. inversion Hv; subst v0.
+  assert (Hrv : refd g1 v = true). { eapply (i_ptr _ _ I); eauto. rewrite Hrf. now left. }
+  assert (Hall : refd g1 k = true /\ exists c, intended ops k = Some c /\ st g1 k = Linked c true).
+  { induction Hk as [v|v k k' Hk IH [c [Hic Hin]]].
+    - split; auto. destruct (refd_durable _ _ _ I Hrv) as [c [j [A [B _]]]]. exists c. split; auto.
+      eapply intended_tie; eauto.
+    - destruct (IH Hv Hrf Hrv) as [Rk [c0 [Ic Sk]]]. rewrite Ic in Hic. inversion Hic; subst c0.
+      assert (Rk' : refd g1 k' = true).
+      { destruct (i_refd _ _ I _ Rk) as [Hf _]. destruct k; [|discriminate]. eapply (i_refs _ _ I); eauto. }
+      split; auto. destruct (refd_durable _ _ _ I Rk') as [c' [j [A [B _]]]]. exists c'. split; auto.
+      eapply intended_tie; eauto. }
+  destruct Hall as [Rk [c [Ic Sk]]]. exists c. split; auto.
+  destruct (refd_durable _ _ _ I Rk) as [c' [j [A [B [C [D [E F]]]]]]].
+  assert (Ec : c' = c) by congruence. rewrite Ec in *. unfold content_at, power_loss. rewrite C, E, D, F. auto.
+Qed.
+
+(* Unlink never touches the pointer's state *)
+Lemma unlinks_ptr : forall ms g g', checks g (map Unlink ms) = Some g' -> st g' PTR = st g PTR.
+Proof.
+  induction ms as [|m ms IH]; intros g g' H; simpl in H.
+  - inversion H; auto.
+  - destruct m as [d n|d n].
+    + match type of H with match (if ?x then _ else _) with _ => _ end = _ => destruct x eqn:E; [|discriminate] end.
+      rewrite (IH _ _ H). simpl. apply andb_prop in E as [E _]. apply andb_prop in E as [E _].
+      unfold upd_s. destruct (path_eqb PTR (P d n)) eqn:E2; auto.
+      destruct (path_eqb_spec PTR (P d n)); [|discriminate]. inversion e; subst. discriminate.
+    + destruct (tmps g (T d n)); [|discriminate]. rewrite (IH _ _ H). reflexivity.
+Qed.
+
+Lemma trace_of_app : forall l1 l2, trace_of (l1 ++ l2) = trace_of l1 ++ trace_of l2.
+Proof. intros. unfold trace_of. apply flat_map_app. Qed.
+
+Theorem acked_durable : forall ops c, wf (ops ++ [c]) = true ->
+  forall n es, (length (trace_of ops ++ commit_body c) <= n)%nat ->
+  calls_of es = firstn n (trace_of (ops ++ [c])) ->
+  exists s', run fs0 es = Some s' /\ pointer (power_loss s') = Some (pf_path (c_meta c)) /\ pointer (vol s') = Some (pf_path (c_meta c)).
+Proof.
+  intros ops c Hwf n es Hn Hes.
+  unfold wf in Hwf. rewrite wf_from_app in Hwf. apply andb_prop in Hwf as [W1 W2].
+  destruct (history_ok ops [] [] [] [] g0 W1 G_init (incl_refl _) (incl_refl _))
+    as [g1 [u1 [F1 [C1 [G1 [J1 [J2 _]]]]]]].
+  simpl in W2. rewrite andb_true_r in W2.
+  destruct (commit_ok c _ _ u1 F1 g1 W2 G1 J1 J2) as [g2 [g3 [u3 [F3 [M3 [C2 [C3 [G2 [G3 [S2 _]]]]]]]]]].
+  assert (Htr : trace_of (ops ++ [c]) = (trace_of ops ++ commit_body c) ++ commit_cleanup c).
+  { rewrite trace_of_app. cbn [trace_of flat_map]. rewrite app_nil_r. unfold trace_of_commit. now rewrite app_assoc. }
+  rewrite Htr in Hes. rewrite firstn_app in Hes. rewrite firstn_all2 in Hes by exact Hn.
+  unfold commit_cleanup in Hes, C3. rewrite firstn_map in Hes.
+  set (k := (n - length (trace_of ops ++ commit_body c))%nat) in *.
+  assert (Hpre : exists gk, checks g2 (map (fun it => Unlink (pf_path (it_marker it))) (firstn k (items c))) = Some gk).
+  { rewrite <- (firstn_skipn k (items c)) in C3. rewrite map_app, checks_app in C3.
+    destruct (checks g2 (map (fun it => Unlink (pf_path (it_marker it))) (firstn k (items c)))); [eauto|discriminate]. }
+  destruct Hpre as [gk Ck].
+  assert (Hck : checks g0 (calls_of es) = Some gk).
+  { rewrite Hes, checks_app, checks_app, C1, C2. exact Ck. }
+  destruct (Inv_run es g0 fs0 gk Hck Inv_init) as [s' [Hr I]]. exists s'. split; auto.
+  assert (Sk : st gk PTR = Linked (c_ptr c) true).
+  { rewrite <- S2. rewrite <- map_map with (f := fun it => pf_path (it_marker it)) (g := Unlink) in Ck. eapply unlinks_ptr; eauto. }
+  destruct (i_linked _ _ I 0 0 _ _ Sk) as [i [V1 V2]]. specialize (V2 eq_refl).
+  destruct (i_vol _ _ I 0 0 i V1) as [c' [b' [E1 [E2 E3]]]]. fold PTR in E1. rewrite Sk in E1. inversion E1 as [[Ec Eb]]. rewrite <- Ec in E2, E3.
+  unfold wf_commit in W2. apply andb_prop in W2 as [_ W6].
+  unfold pointer, content_at, power_loss. fold PTR in V1, V2. rewrite V1, V2, E2, E3.
+  destruct (refs (c_ptr c)) as [|v [|? ?]]; try discriminate.
+  destruct (path_eqb_spec v (pf_path (c_meta c))); [subst; auto|discriminate].
 Qed.
